@@ -3,7 +3,7 @@ from ..gens import *
 
 ID = "C12"
 LEAN_MODULE = "Ucfg.Props.C12"
-LEVEL_TEXT = 'Get/Set/Remove/Has theorems on the path model (read-your-writes, other keys untouched, removal shifts, has iff get); MODEL_IS_SPEC: any disagreement with the model on a history is a violation.'
+LEVEL_TEXT = 'Get/Set/Remove/Has theorems on the path model: read-your-writes for WHOLE paths (pathGet_pathSet_same: any path of names and indices, any node, any value - a write that succeeds is read back through the same path; Has follows), the frame of a write (pathSet_named_frame / pathGet_after_set_elsewhere: other names and all list elements of the starting node read as before), single-field laws, removal shifts and handles, has iff get; MODEL_IS_SPEC: any disagreement with the model on a history is a violation.'
 CORRESPONDENCE = "Ops.opStep (Path.pathGet/pathSet/pathRemove/pathHas, Conv) ~ (*Config).Set*/SetChild/Remove/Merge/getters/Has/CountField/Child"
 RULE = ("operation histories (length <= 25, thorough 60) of Set*/SetChild/Remove/Merge/Child and reads (typed getters, Has, CountField, "
         "IsDict/IsArray/GetFields) over a small overlapping address space: names a,b,c, dotted paths, indices 0..3 and past the end, "
